@@ -7,14 +7,17 @@ float is `[+-]<m>p<e>` = ±m/2^e, i.e. the exact value of the float32/float64):
   atom <het> <id> <xname> <xres> <xchain> <resid> <xins> <xel> <occ> <bf> <q>   append an atom       -> ok
   model <x,y,z;x,y,z;...>              append one model (a coordinate triple per atom)               -> ok
   bond <i> <j>                         append a row of array.bonds.as_array()                        -> ok
+  cell <a> <b> <c> <al> <be> <ga> <9 box vector components>   box of the structure: the six values the writer formats
+                                       (unitcell_from_vectors, degrees; used by the model) and the float32 vectors (used by the code) -> ok
   write <h36> <hasid> <hasb> <hasocc> <hasq> <hasbonds>   PDBFile.set_structure -> ok <n> |line|line|…| | ERR:<cls>
   rawline <xhex>                       append a raw line to the file                                 -> ok
   readmodel <k> <include_bonds>        the same with model=k (an AtomArray, reported as M=1)
   read <include_bonds>                 PDBFile.read(text).get_structure(extra_fields=all, include_bonds)
-                                       -> ok M=<models> N=<atoms> A:<atoms> C:<coords in 1e-3> B:<bonds> | ERR:<cls>
+                                       -> ok M=<models> N=<atoms> A:<atoms> C:<coords in 1e-3> B:<bonds> X:<cell read: 1e-3 A, 1e-2 deg | -> | ERR:<cls>
 """
 import ast
 import io
+import json
 import math
 import os
 import re
@@ -29,7 +32,7 @@ GEN_FILES = ["BiotiteModel/Gen/C07.lean"]
 RULE = ("seeded atom arrays / stacks (1-12 atoms, 1-3 models, optional atom_id/b_factor/occupancy/charge/bonds, "
         "hybrid-36 on/off) whose values sit on the column boundaries (float32 neighbours of -999.9995/9999.9995, "
         "B-factors around 999.995/-99.995, ids around 99999/9999/-9999/-999 and the hybrid-36 range borders, 0-4 "
-        "character names with 1-2 letter elements, empty chain), written and re-read op by op against the Lean model "
+        "character names with 1-2 letter elements, empty chain; boxes with cell lengths 9999.999/10000.0/99999.99/0.001 and angles near 0/90/180), written and re-read op by op against the Lean model "
         "(text of every line compared), a malformed stream (one field beyond its column: model and code must both "
         "refuse), get_structure(model=k) for k in -M-3..M+2, raw ATOM lines in non-canonical but valid layouts for the reader, hybrid-36 numbers at all range "
         "borders for widths 1-5; oracle: independent PDB column table + write/read equality + exhaustive width-4 "
@@ -49,8 +52,11 @@ LEVEL_TEXT = ("Lean proofs for all inputs: hybrid-36 decode(encode n w) = n for 
               "(float() on the writer's fixed-point text modelled as exact decimal parsing; rounding error <= half a unit, "
               "C07_round_error); C07_models: model=k / model=-k select exactly that model's records of a written stack, 0 and "
               "out-of-range indices are refused (after fix 3f6e919f); C07_conect_roundtrip: the set of carriable bonds survives "
-              "write->read through the atom-id map incl. hybrid-36 ids; regenerated column tables. Partial: CRYST1, altloc filtering, "
-              "NaN/inf and the assembly of per-record results into numpy arrays are exercised by correspondence and oracle only.")
+              "write->read through the atom-id map incl. hybrid-36 ids; C07_cryst1_roundtrip: the box check accepts exactly the cells that "
+              "fit after rounding, the CRYST1 record is 80 characters with a,b,c,alpha,beta,gamma in columns 7-15..48-54 and is read back to "
+              "1e-3 A / 1e-2 deg, an oversized cell is refused (after fix 8f9d909b); regenerated ATOM and CRYST1 column tables. Partial: the "
+              "trigonometry between box vectors and cell parameters (float32), altloc filtering, NaN/inf and the assembly of per-record "
+              "results into numpy arrays are exercised by correspondence and oracle only.")
 LEVEL_NOTE = "float formatting/parsing, numpy chararray and BondList semantics are modelled, not verified; see notes/C07.md"
 TECHNIQUE = "Lean 4 proof (induction over digit lists / list layout lemmas) + regenerated column tables + correspondence"
 
@@ -177,7 +183,7 @@ def gen_lean():
     # fields get role names by their position in the sum.
     first = second = None
     numfmt = {}
-    line_parts = model_parts = None
+    line_parts = model_parts = cryst_parts = None
     h36w = {}
     roles1 = ["record", "pdb_atom_id", "spaces", "names", "spaces", "res_names", "spaces", "chain_ids", "pdb_res_id", "ins_codes"]
     roles2 = ["occupancy", "b_factor", "spaces", "elements", "charge"]
@@ -215,9 +221,18 @@ def gen_lean():
                 line_parts = [(k, next(it) if k == "val" else a, b) for k, a, b in p]
             if len(vals) == 1 and p[0][0] == "lit" and p[0][1].startswith("MODEL"):
                 model_parts = [(k, "model_num" if k == "val" else a, b) for k, a, b in p]
+            if len(vals) == 6 and p[0][0] == "lit" and p[0][1] == "CRYST1":
+                it6 = iter(["a", "b", "c", "alpha", "beta", "gamma"])
+                cryst_parts = [(k, next(it6) if k == "val" else a, b) for k, a, b in p]
     if not (first and second and line_parts and model_parts) or set(numfmt) != {"b_factor", "occupancy"} \
             or set(h36w) != {"pdb_atom_id", "pdb_res_id"}:
         raise ValueError("set_structure: line assembly not found in the expected shape")
+    if not cryst_parts or cryst_parts[-1][0] != "lit":
+        raise ValueError("set_structure: CRYST1 f-string not found in the expected shape")
+    cslices = ["_a", "_b", "_c", "_alpha", "_beta", "_gamma", "_space", "_z"]
+    for k in cslices:
+        if k not in slices:
+            raise ValueError(f"CRYST1 column slice {k} not found in file.py")
     chk = _find_func(tree, "_check_pdb_compatibility")
     lens, numchk, minids = {}, {}, {}
     for n in ast.walk(chk):
@@ -234,6 +249,15 @@ def gen_lean():
         if isinstance(n, ast.Compare) and isinstance(n.ops[0], ast.Lt) and isinstance(n.comparators[0], ast.UnaryOp) \
                 and isinstance(n.comparators[0].op, ast.USub):
             minids["array.res_id" if "res_id" in ast.unparse(n.left) else "min_atom_id"] = -int(n.comparators[0].operand.value)
+    boxchk = []
+    for n in ast.walk(chk):
+        if isinstance(n, ast.Compare) and isinstance(n.ops[0], ast.Gt) and isinstance(n.left, ast.Call) \
+                and getattr(n.left.func, "id", None) == "len" and n.left.args and isinstance(n.left.args[0], ast.JoinedStr):
+            pp = _fstring_parts(n.left.args[0])
+            if len(pp) == 1 and pp[0][0] == "val":
+                boxchk.append((pp[0][2], int(n.comparators[0].value)))
+    if len(boxchk) != 2:
+        raise ValueError(f"_check_pdb_compatibility: expected 2 box width checks, found {len(boxchk)}")
     if set(lens) != {"chain_id", "res_name", "atom_name", "ins_code", "element"}:
         raise ValueError(f"_check_pdb_compatibility: length checks found for {sorted(lens)} only")
     if set(numchk) != {"coord", "b_factor", "occupancy"}:
@@ -289,6 +313,13 @@ def gen_lean():
         f"def minResId : Int := {minids['array.res_id']}",
         f"def h36AtomWidth : Nat := {h36w['pdb_atom_id']}",
         f"def h36ResWidth : Nat := {h36w['pdb_res_id']}",
+        "/-- CRYST1: reader slices, the writer's f-string (name, justification, width), decimals, trailing literal, box checks -/",
+        "def cryst1Slices : List (String × Nat × Nat) := [" + ", ".join(f'("{k}", {slices[k][0]}, {slices[k][1]})' for k in cslices) + "]",
+        "def cryst1Line : List (String × String × Nat) := " + lay(
+            [(("lit", "lit", len(a)) if k == "lit" else (a, "rjust" if _spec(b)[0] == ">" else "ljust", _spec(b)[1])) for k, a, b in cryst_parts]),
+        "def cryst1Decimals : List Nat := [" + ", ".join(str(_spec(b)[2] or 0) for k, a, b in cryst_parts if k == "val") + "]",
+        "def cryst1Tail : String := " + json.dumps(cryst_parts[-1][1]),
+        "def cryst1Check : List ((String × Nat × Nat) × Nat) := [" + ", ".join(f"({spec3(sp)}, {w})" for sp, w in boxchk) + "]",
         "/-- hybrid36.pyx -/",
     ] + [f"def {k[1:].lower().replace('_', ' ').title().replace(' ', '')[0].lower() + k[1:].lower().replace('_', ' ').title().replace(' ', '')[1:]} : Nat := {v}"
          for k, v in sorted(asc.items())] + [
@@ -298,8 +329,20 @@ def gen_lean():
 
 
 # ---------------------------------------------------------------- structures <-> ops
+def cell_values(box):
+    """the six numbers `set_structure` formats into CRYST1 for this box (float32 vectors), as Python floats"""
+    import numpy as np
+    from biotite.structure.box import unitcell_from_vectors
+    with np.errstate(all="ignore"):
+        a, b, c, al, be, ga = unitcell_from_vectors(np.array(box, dtype=np.float32))
+        return [float(a), float(b), float(c)] + [float(x) for x in np.rad2deg([al, be, ga])]
+
+
 def struct_ops(S, read=True, model_ks=None):
     ops = []
+    if S.get("box") is not None:
+        ops.append("cell " + " ".join(fx(v) for v in cell_values(S["box"])) + " " +
+                   " ".join(fx(f32(v)) for row in S["box"] for v in row))
     for a in S["atoms"]:
         ops.append("atom {} {} {} {} {} {} {} {} {} {} {}".format(
             int(a["het"]), a["id"], hx(a["name"]), hx(a["res"]), hx(a["chain"]), a["resid"], hx(a["ins"]), hx(a["el"]),
@@ -330,6 +373,9 @@ def ops_struct(ops):
             S["models"].append([] if w[1] == "_" else [[unfx(c) for c in t.split(",")] for t in w[1].split(";")])
         elif w[0] == "bond":
             S["bonds"].append((int(w[1]), int(w[2])))
+        elif w[0] == "cell":
+            vals = [unfx(t) for t in w[7:16]]
+            S["box"] = [vals[0:3], vals[3:6], vals[6:9]]
         elif w[0] == "write":
             S["flags"] = dict(zip(("h36", "id", "b", "occ", "q", "bonds"), (x == "1" for x in w[1:7])))
     return S
@@ -364,8 +410,9 @@ def build_array(S, extra=None):
         arr.set_annotation("charge", np.array([a["q"] for a in A], dtype=int))
     if f["bonds"]:
         arr.bonds = struc.BondList(n, np.array([(i, j, 1) for i, j in S["bonds"]], dtype=np.int64).reshape(-1, 3))
-    if extra and extra.get("box") is not None:
-        box = np.array(extra["box"], dtype=np.float32)
+    bx = S.get("box") if S.get("box") is not None else (extra or {}).get("box")
+    if bx is not None:
+        box = np.array(bx, dtype=np.float32)
         arr.box = np.repeat(box[None], len(models), axis=0) if use_stack else box
     return arr
 
@@ -377,17 +424,38 @@ def _setup_ccd():
         info.set_ccd_path(FIXTURE_CCD)
 
 
-def _read_back(lines, include_bonds, model=None):
+def _read_back(lines, include_bonds, model=None, cell=None):
     from biotite.structure.io.pdb import PDBFile
     _setup_ccd()
     text = "\n".join(lines) + "\n"
     f = PDBFile.read(io.StringIO(text))
-    st = f.get_structure(model=model, extra_fields=["atom_id", "b_factor", "occupancy", "charge"],
-                         include_bonds=include_bonds)
+    # the six numbers parsed from CRYST1 are observed where get_structure hands them to vectors_from_unitcell
+    import biotite.structure.io.pdb.file as pdbfile
+    orig = pdbfile.vectors_from_unitcell
+    seen = []
+
+    def recorder(*args):
+        seen.append([float(x) for x in args])
+        return orig(*args)
+    pdbfile.vectors_from_unitcell = recorder
+    try:
+        st = f.get_structure(model=model, extra_fields=["atom_id", "b_factor", "occupancy", "charge"],
+                             include_bonds=include_bonds)
+    finally:
+        pdbfile.vectors_from_unitcell = orig
     if model is not None:
         import biotite.structure as struc
         st = struc.stack([st])
+    if cell is not None:
+        cell.extend(seen[:1])
     return st
+
+
+def _canon_cell(cell):
+    if not cell:
+        return " X:-"
+    u = cell[0]
+    return " X:" + ",".join([str(round(v * 1000)) for v in u[:3]] + [str(round(math.degrees(v) * 100)) for v in u[3:]])
 
 
 def _canon_read(st):
@@ -422,7 +490,7 @@ def run_impl(case):
                     out.append("ok " + encode_hybrid36(int(w[1]), int(w[2])))
                 elif w[0] == "h36dec":
                     out.append(f"ok {int(decode_hybrid36(unhx(w[1])))}")
-                elif w[0] in ("atom", "model", "bond"):
+                elif w[0] in ("atom", "model", "bond", "cell"):
                     out.append("ok")
                 elif w[0] == "write":
                     lines = []
@@ -435,10 +503,13 @@ def run_impl(case):
                 elif w[0] == "rawline":
                     lines.append(unhx(w[1]))
                     out.append("ok")
-                elif w[0] == "readmodel":
-                    out.append(_canon_read(_read_back(lines, w[2] == "1", model=int(w[1]))) if lines else "no-file")
-                elif w[0] == "read":
-                    out.append(_canon_read(_read_back(lines, w[1] == "1")) if lines else "no-file")
+                elif w[0] in ("readmodel", "read"):
+                    if not lines:
+                        out.append("no-file")
+                    else:
+                        cell = []
+                        st = _read_back(lines, w[-1] == "1", model=int(w[1]) if w[0] == "readmodel" else None, cell=cell)
+                        out.append(_canon_read(st) + _canon_cell(cell))
                 else:
                     out.append("bad-op")
             except Exception as e:  # noqa: BLE001
@@ -509,7 +580,31 @@ def limits(S):
                     k = _rounded(v, 3)
                     if k > 9999999 or k < -999999:
                         hard.append("coord-magnitude")
+    bx = S.get("box")
+    if bx is not None:
+        vals = cell_values(bx)
+        if not all(math.isfinite(v) for v in vals):
+            soft.append("box-degenerate")
+        else:
+            if any(_rounded(v, 3) > 99999999 for v in vals[:3]):
+                hard.append("box-length-magnitude")
     return sorted(set(hard)), sorted(set(soft))
+
+
+def _cell_ref(box):
+    """cell lengths and angles (degrees) of box vectors, computed in float64 independently of biotite"""
+    import numpy as np
+    v = np.array(box, dtype=np.float64)
+    ln = [float(np.linalg.norm(x)) for x in v]
+
+    def ang(p, q, lp, lq):
+        return float(np.degrees(np.arccos(np.clip(np.dot(p, q) / (lp * lq), -1, 1))))
+    return ln + [ang(v[1], v[2], ln[1], ln[2]), ang(v[0], v[2], ln[0], ln[2]), ang(v[0], v[1], ln[0], ln[1])]
+
+
+def _angle_slack(deg):
+    """float32 box vectors resolve cos(angle) to ~1e-7: angle uncertainty in degrees (large only near 0 / 180)"""
+    return math.degrees(1e-6 / max(math.sin(math.radians(deg)), 1e-6)) if 0 < deg < 180 else 180.0
 
 
 def _h36_dec_ref(t):
@@ -547,6 +642,8 @@ def oracle(case):
     if case.get("struct"):
         S = dict(S, bonds=[tuple(b) for b in S["bonds"]])
     extra = case.get("extra") or {}
+    if S.get("box") is None and extra.get("box") is not None:
+        S = dict(S, box=[[f32(v) for v in row] for row in extra["box"]])
     hard, soft = limits(S)
     v = []
     with warnings.catch_warnings():
@@ -560,6 +657,27 @@ def oracle(case):
             return v
         recs = [l for l in f.lines if l.startswith(("ATOM", "HETATM"))]
         n = len(S["atoms"])
+        # --- CRYST1 record: standard columns (PDB v3.3: a 7-15, b 16-24, c 25-33, alpha 34-40, beta 41-47, gamma 48-54)
+        if S.get("box") is not None and "box-degenerate" not in soft:
+            cr = [l for l in f.lines if l.startswith("CRYST1")]
+            want = _cell_ref(S["box"])
+            tag = None
+            if len(cr) != 1 or f.lines[0] != cr[0]:
+                tag = "missing"
+            elif len(cr[0]) != 80:
+                tag = "record-length"
+            else:
+                try:
+                    got = [float(cr[0][a - 1:b]) for a, b in ((7, 15), (16, 24), (25, 33), (34, 40), (41, 47), (48, 54))]
+                    if any(abs(g - w_) > 0.00051 + 2e-7 * abs(w_) for g, w_ in zip(got[:3], want[:3])) or \
+                            any(abs(g - w_) > 0.0051 + 1e-4 + _angle_slack(w_) for g, w_ in zip(got[3:], want[3:])):
+                        tag = "values"
+                except ValueError:
+                    tag = "unparsable"
+            if tag:
+                why = ("/" + hard[0]) if hard else ""
+                v.append((f"C07/cryst1/{tag}{why}", f"CRYST1 {cr[:1]!r} for cell {want}"))
+                return v
         # --- columns (every written record, whatever the input was)
         for r_i, line in enumerate(recs):
             a = S["atoms"][r_i % n]
@@ -643,16 +761,15 @@ def oracle(case):
                     got = {(int(min(x, y)), int(max(x, y))) for x, y, _ in st.bonds.as_array()}
                     if got != carriable_ref(S):
                         bad = f"bonds {sorted(got)} != {sorted(carriable_ref(S))}"
-            if extra.get("box") is not None and not bad:
-                import numpy as np
-                from biotite.structure.box import unitcell_from_vectors
+            if S.get("box") is not None and not bad:
                 if st.box is None:
                     bad = "box lost"
                 else:
-                    u0 = unitcell_from_vectors(np.array(extra["box"], dtype=np.float32))
-                    u1 = unitcell_from_vectors(st.box[0])
-                    if any(abs(p - q) > 0.0011 for p, q in zip(u0[:3], u1[:3])) or \
-                            any(abs(np.rad2deg(p) - np.rad2deg(q)) > 0.011 for p, q in zip(u0[3:], u1[3:])):
+                    u0 = _cell_ref(S["box"])
+                    u1 = _cell_ref(st.box[0].tolist())
+                    # CRYST1 precision (half a unit of the last decimal) + float32 storage of the box vectors
+                    if any(abs(p - q) > 0.00051 + 4e-7 * abs(p) for p, q in zip(u0[:3], u1[:3])) or \
+                            any(abs(p - q) > 0.0051 + 2e-4 + 2 * _angle_slack(p) for p, q in zip(u0[3:], u1[3:])):
                         bad = f"box {u0} != {u1}"
         if bad:
             v.append(("C07/roundtrip/" + bad.split()[0], bad))
@@ -764,6 +881,40 @@ def _bf(rng, ok):
     return 1.0 if ok else 1000.0
 
 
+LEN_EDGES = [9999.999, 10000.0, 10000.001, 99999.99, 99999.984, 12345.625, 65536.5, 0.001, 0.0005, 0.004, 1.0, 999.9995, 54.321]
+ANGLE_EDGES = [90.0, 89.99, 90.01, 0.01, 0.5, 179.99, 179.5, 60.0, 120.0, 109.47, 45.005, 33.333]
+
+
+def gen_box(rng, ok=True):
+    """box vectors (float32 values) for a cell with lengths / angles on the CRYST1 column boundaries"""
+    import numpy as np
+    from biotite.structure.box import vectors_from_unitcell
+    for _ in range(200):
+        ln = [rng.choice(LEN_EDGES) if rng.random() < 0.6 else round(rng.uniform(1, 400), rng.randint(0, 3)) for _ in range(3)]
+        if not ok:
+            ln[rng.randrange(3)] = rng.choice([99999.9996, 100000.0, 123456.0, 99999.999, 1e6])
+        r = rng.random()
+        if r < 0.4:
+            box = [[ln[0], 0, 0], [0, ln[1], 0], [0, 0, ln[2]]]
+        else:
+            an = [rng.choice(ANGLE_EDGES) if rng.random() < 0.6 else round(rng.uniform(20, 160), 2) for _ in range(3)]
+            if r < 0.6:
+                an = [90.0, rng.choice(ANGLE_EDGES), 90.0]
+            with np.errstate(all="ignore"):
+                box = vectors_from_unitcell(*ln, *np.deg2rad(an))
+            if not np.isfinite(box).all():
+                continue
+            box = box.tolist()
+        box = [[f32(v) for v in row] for row in box]
+        vals = cell_values(box)
+        if not all(math.isfinite(v) for v in vals) or min(vals[:3]) <= 0:
+            continue
+        fits = all(_rounded(v, 3) <= 99999999 for v in vals[:3])
+        if fits == ok:
+            return box
+    return [[10.0, 0.0, 0.0], [0.0, 10.0, 0.0], [0.0, 0.0, 10.0]] if ok else [[100000.0, 0.0, 0.0], [0.0, 10.0, 0.0], [0.0, 0.0, 10.0]]
+
+
 RES_POOL = ["ALA", "GLY", "HOH", "SOL", "LIG", "XX", "Z", "A1*", "U"]
 EL_POOL = ["C", "N", "O", "H", "S", "CA", "FE", "ZN", "Na", "D"]
 
@@ -813,6 +964,8 @@ def gen_struct(rng, malformed=None):
         rng.shuffle(pairs)
         bonds = pairs[:rng.randint(0, min(len(pairs), 2 * n))]
     S = {"atoms": atoms, "models": models, "bonds": bonds, "flags": f}
+    if rng.random() < 0.35 or malformed == "box":
+        S["box"] = gen_box(rng, ok=malformed != "box")
     if malformed:
         a = rng.choice(atoms)
         if malformed == "name":
@@ -846,7 +999,7 @@ def gen_struct(rng, malformed=None):
     return S
 
 
-MALFORMED = ["name", "res", "chain", "ins", "el", "coord", "coord", "bf", "occ", "q", "resid", "resid", "atomid", "atomid"]
+MALFORMED = ["name", "res", "chain", "ins", "el", "coord", "coord", "bf", "occ", "q", "resid", "resid", "atomid", "atomid", "box", "box"]
 
 
 def pdb_line(rng, rec):
@@ -1087,7 +1240,7 @@ def shrink(case, key):
             return False
     # drop models, then atoms (with their bonds)
     while len(S["models"]) > 1:
-        S2 = dict(S, models=S["models"][:-1])
+        S2 = dict(S, models=S["models"][:-1])  # keeps the box
         if fails(S2):
             S = S2
         else:
@@ -1097,7 +1250,8 @@ def shrink(case, key):
         keep = [k for k in range(len(S["atoms"])) if k != i]
         remap = {k: n for n, k in enumerate(keep)}
         S2 = {"atoms": [S["atoms"][k] for k in keep], "models": [[m[k] for k in keep] for m in S["models"]],
-              "bonds": [(remap[a], remap[b]) for a, b in S["bonds"] if a in remap and b in remap], "flags": S["flags"]}
+              "bonds": [(remap[a], remap[b]) for a, b in S["bonds"] if a in remap and b in remap], "flags": S["flags"],
+              "box": S.get("box")}
         if fails(S2):
             S = S2
         else:
